@@ -9,7 +9,7 @@ from oracles import readers as OR
 ID = 'C12'
 LEVEL = 'exploration'
 ENGINE = 'history'
-BUDGET = {'quick': 3000, 'thorough': 200000}
+BUDGET = {'quick': 12000, 'thorough': 200000}
 WALL = {'quick': 45, 'thorough': 1500}
 RULE = ('one trash-rm PATTERN per case over a multi-volume trash with case variants, metacharacter names and equal base '
         'names in several directories/volumes; pattern grammar: literals, *, ?, [set], [a-z], [!set], leading / (full path); '
